@@ -263,7 +263,7 @@ impl SingleByteDecoder {
                 total += 1;
                 bytes = &bytes[offset + 1..];
             } else {
-                return total;
+                return total + bytes.len();
             }
         }
     }
